@@ -18,7 +18,7 @@ for d in sorted(glob.glob(os.path.join(ROOT, "seeded", "*"))):
 hdr = """### 9.5 Seeded changes and which checks catch them
 
 %d changes to txtpp were written by sub-agents that saw only the text of one property and a scratch worktree
-(ten rounds; the second asked for less obvious sites, the third and fourth (`"round"` in meta.json) for three mutually
+(eleven rounds; the second asked for less obvious sites, the third and fourth (`"round"` in meta.json) for three mutually
 different mechanisms per property with narrow failing inputs, schedule-dependent ones included; the fifth and sixth were
 confined to the ENTRY LAYER - src/main.rs, lib.rs, config.rs, progress.rs, error.rs, shell.rs: how an invocation becomes a
 run and how its result is reported). Each was confirmed in a scratch worktree (`tools/confirm_seeds.sh`,
@@ -65,7 +65,23 @@ one), verify of an output larger than the 8 KiB reader buffer (C06: large-output
 check skipped under `--needed` (C09: erroneous projects must fail under `--needed` exactly like under a build), `include
 x.txtpp` of a source file taken for a dependency and verify skipping the dependency pass (C11: raw includes of source files
 and a verify mode in the input-resolution job), a source built only as a dependency ignoring the trailing-newline option
-(C13: dependency-only scenario) - all caught now.
+(C13: dependency-only scenario) - all caught now. Round 11 (C01-C03, C08, C10, C14, C16, C18; "what a randomised generator
+of small projects is unlikely to produce": large inputs, unusual bytes, rare orders, rare modes with rare file states, 24
+changes) exposed a systematic blind spot rather than single gaps: by the sub-agents' summaries at least 21 of the 24 needed an
+input that none of the sampling generators could draw (a first line or an included file beyond the 8 KiB reader buffer, a
+multi-byte character across a buffer boundary or across byte 72 of an argument, a temp target rewritten with a prefix of its
+old content, stray carriage returns, an empty fresh output over a stale or missing one, a directive prefix that is not
+ASCII, a tag with a multi-byte name on a short line, a waiting tag followed by an empty output, tags after a dependency,
+dependency directives sharing a prefix with a multi-line directive before them, a stale output behind a symbolic link, file
+names that are not UTF-8, 700 sources with failing ones among them, a command that fills the stderr pipe). Two families of
+explicit scenarios were therefore added before the first run against these seeds: `harness/src/corner.rs` (13 small
+projects, run in their modes by every model-compared job and, with a watchdog, through the CLI in C18) and the `big` job
+(many files / non-UTF-8 names through the CLI binary, for C03, C10, C11 and inside C18), plus three additions to the schedule
+worlds (same-prefix dependency directives, a non-ASCII multi-line block, stale outputs behind symbolic links). With them 21 of
+the 24 were caught at the first run; the other three needed a correction of the additions themselves (a corner scenario that
+ended in an error, so that only its verdict was compared; `-N verify` / `-N clean` left to a 1-in-15 draw - now the first
+cases of the CLI jobs). The corner scenarios also found a defect of the *model* (a lone carriage return at the very end of a
+file, 9.3).
 
 | id | property | what the change does | caught by (quick tier) |
 |----|----------|----------------------|------------------------|
